@@ -8,13 +8,16 @@
   * `C15_split_sep`: for an explicit non-empty separator the spans are computed by the model's scanner and
     the texts of the pieces are exactly `str.split(sep)` of the text (`Spec.strSplit`).
   * `C15_splitlines`: texts = `str.splitlines(keepends)` (`Spec.strSplitlines`, line-boundary set a
-    parameter), pieces are slices of `f` at the positions of the lines.
-  * `C15_join` (= C06_join), `C15_ljust` / `C15_rjust`: text = padded text; every original character keeps
-    at least the attributes shared by all characters and shows only attributes it had; the padding shows
-    only shared attributes; with a fill character the whole result carries exactly `sharedAtts f`.
-    (The statement's wording, no more: a non-shared bg is dropped from the original characters, and when
-    bg is shared the padding gets the bg only.)
-  Delegated methods, generically (`C15_delegate`): for an UNINTERPRETED str method `m`, the result has the
+    parameter), and piece i is the slice of `f` at the explicit position of line i (`lineSpans`).
+  * `C15_join` (as C06_join), `C15_ljust` / `C15_rjust`: EXACTLY what the code does - with `sh = sharedAtts f`:
+    if `sh` has a bg, the characters are unchanged and the padding carries `{bg}` only; otherwise every character
+    loses its (non-shared) bg and the padding carries exactly `sh`.  `C15_just_bounds` relates this to the
+    statement's wording (characters keep at least the shared attributes and show only attributes they had;
+    padding shows only shared attributes - with equality exactly in the no-shared-bg branch).  With a fill
+    character the whole result carries exactly `sharedAtts f`.
+  * `fmtstr(text, **dict)` inside ljust/rjust/delegation is modelled as written (from_str, parse_args,
+    copy_with_new_atts); `C15_fmtstrAtts` shows it is `FmtStr(Chunk(text, dict))` (via `C14_parse_own_atts`).
+  Delegated methods, generically (`C15_delegate_partial`; open finding D27 for result texts with `ESC [`): for an UNINTERPRETED str method `m`, the result has the
   text(s) `m` gives on the text, carries exactly `sharedAtts f`, and by `C14_shared` every entry of that is an
   entry of every character of `f`; non-text answers and exceptions pass through unchanged.
   PARTIAL by design: that `m` is CPython's `str.upper` etc. is not a Lean fact; regexes enter as span lists.
@@ -22,8 +25,10 @@
 -/
 import Curtsies.Model.StrMethods
 import Curtsies.Proofs.Slice
-import Curtsies.Properties.C06
+import Curtsies.Spec.PySlice
 import Curtsies.Properties.C14
+import Curtsies.Properties.C14Sound
+import Curtsies.Generated.EscParse
 namespace Curtsies
 open Spec
 
@@ -34,7 +39,7 @@ private theorem getslice_cells' (f : FmtStr) (s e : Nat) :
   unfold getslice
   simp only []
   by_cases h : (getitemLoop s e 0 f).isEmpty
-  · rw [if_pos h, cells_emptyFmt, ← this]
+  · rw [if_pos h, show cells emptyFmt = [] from rfl, ← this]
     have : getitemLoop s e 0 f = [] := List.isEmpty_iff.mp h
     rw [this]; rfl
   · rw [if_neg h, this]
@@ -123,14 +128,20 @@ theorem C15_split_sep_spec (sep : Text) (hsep : sep ≠ []) (t : Text) :
   have := scan sep hsep t [] 0 0 (Or.inl ⟨rfl, Nat.le_refl _⟩)
   simpa [findSpans, strSplit] using this
 
-/-- `f.split(sep)`, explicit non-empty separator: the texts of the pieces are `str.split(sep)` of the text, and
-    the pieces are the slices of `f` (characters with their own formatting) at the same positions. -/
-theorem C15_split_sep (f : FmtStr) (sep : Text) (hsep : sep ≠ []) :
-    (splitSep f sep).map text = strSplit sep (text f) ∧
-    (splitSep f sep).map cells = cutAt (cells f) (findSpans sep (text f)) ∧
-    (splitSep f sep).map text = cutAt (text f) (findSpans sep (text f)) := by
-  have h := C15_split_spans f (findSpans sep (text f))
-  exact ⟨by rw [splitSep, h.2, C15_split_sep_spec sep hsep], h.1, h.2⟩
+/-- `f.split(sep)`, explicit separator: an empty separator raises ValueError (as `str.split('')`); otherwise the
+    texts of the pieces are `str.split(sep)` of the text, and the pieces are the slices of `f` (characters with their
+    own formatting) at the same positions. -/
+theorem C15_split_sep (f : FmtStr) (sep : Text) :
+    (sep = [] → splitSep f sep = .error .valueError) ∧
+    (sep ≠ [] → ∃ ps, splitSep f sep = .ok ps ∧ ps.map text = strSplit sep (text f) ∧
+      ps.map cells = cutAt (cells f) (findSpans sep (text f)) ∧
+      ps.map text = cutAt (text f) (findSpans sep (text f))) := by
+  constructor
+  · intro h; simp [splitSep, h]
+  · intro hsep
+    have h := C15_split_spans f (findSpans sep (text f))
+    have he : sep.isEmpty = false := by cases sep with | nil => exact absurd rfl hsep | cons _ _ => rfl
+    exact ⟨_, by simp [splitSep, he], by rw [h.2, C15_split_sep_spec sep hsep], h.1, h.2⟩
 
 /-! ### splitlines -/
 
@@ -184,13 +195,16 @@ private theorem spans_text (t : Text) (keep : Bool) (ps : List (Text × Text)) (
       have := slice_mid pre l (e ++ rest.flatMap (fun p => p.1 ++ p.2) ++ post)
       simpa [List.append_assoc] using this
 
-/-- `f.splitlines(keepends)`: the texts are `str.splitlines(keepends)` of the text; every piece is the slice of
-    `f` - characters with their own formatting - at the position of its line. -/
+/-- `f.splitlines(keepends)`: the texts are `str.splitlines(keepends)` of the text; piece i is the slice of `f` -
+    characters with their own formatting - at the position of line i: the explicit spans
+    `lineSpans keepends 0 (linePairs isBreak (text f) [])` (start of the line, end of its content or of its line
+    ending), which cut the TEXT into exactly the lines of `str.splitlines`. -/
 theorem C15_splitlines (isBreak : Char → Bool) (f : FmtStr) (keepends : Bool) :
     (splitlines isBreak f keepends).map text = strSplitlines isBreak keepends (text f) ∧
-    ∃ spans : List (Nat × Nat),
-      (splitlines isBreak f keepends).map cells = spans.map (fun p => ((cells f).take p.2).drop p.1) ∧
-      (splitlines isBreak f keepends).map text = spans.map (fun p => ((text f).take p.2).drop p.1) := by
+    (splitlines isBreak f keepends).map cells =
+      (lineSpans keepends 0 (linePairs isBreak (text f) [])).map (fun p => ((cells f).take p.2).drop p.1) ∧
+    (lineSpans keepends 0 (linePairs isBreak (text f) [])).map (fun p => ((text f).take p.2).drop p.1)
+      = strSplitlines isBreak keepends (text f) := by
   have hz : List.zip (strSplitlines isBreak true (text f)) (strSplitlines isBreak false (text f))
       = (linePairs isBreak (text f) []).map fun p => (p.1 ++ p.2, p.1) := by
     simp [strSplitlines, List.zip_map']
@@ -201,18 +215,50 @@ theorem C15_splitlines (isBreak : Char → Bool) (f : FmtStr) (keepends : Bool) 
   have hcells : ∀ spans : List (Nat × Nat),
       (spans.map fun p => getslice f p.1 p.2).map cells = spans.map (fun p => ((cells f).take p.2).drop p.1) := by
     intro spans; simp [List.map_map, Function.comp_def, getslice_cells']
+  have hsp : (lineSpans keepends 0 (linePairs isBreak (text f) [])).map (fun p => ((text f).take p.2).drop p.1)
+      = strSplitlines isBreak keepends (text f) := by
+    have := spans_text (text f) keepends (linePairs isBreak (text f) []) [] []
+      (by simp [linePairs_flatten])
+    simpa [strSplitlines] using this
   unfold splitlines
   rw [hz, hloop]
-  refine ⟨?_, _, hcells _, htext _⟩
-  rw [htext]
-  have := spans_text (text f) keepends (linePairs isBreak (text f) []) [] []
-    (by simp [linePairs_flatten])
-  simpa [strSplitlines] using this
+  exact ⟨by rw [htext, hsp], hcells _, hsp⟩
 
 /-! ### join, ljust, rjust -/
 
+/-- `sep.join(items)` (items already FmtStrs): Python's join on the per-character views (same proof as `C06_join`,
+    kept here so that this file does not depend on Properties/C06.lean). -/
 theorem C15_join (sep : FmtStr) (items : List FmtStr) :
-    cells (join sep items) = pyJoin (cells sep) (items.map cells) := C06_join sep items
+    cells (join sep items) = pyJoin (cells sep) (items.map cells) := by
+  unfold join
+  cases items with
+  | nil => simp [joinLoop, pyJoin]
+  | cons x xs =>
+    simp only [joinLoop, List.nil_append]
+    induction xs generalizing x with
+    | nil => simp [joinLoop, pyJoin]
+    | cons y ys ih =>
+      have := ih y
+      simp only [List.map_cons, cells_append] at this
+      simp only [joinLoop, cells_append, List.map_cons, pyJoin, this, List.append_assoc]
+
+/-- `fmtstr(text, **dict)` for the attribute dict of an existing FmtStr (ESC-free text) is
+    `FmtStr(Chunk(text, dict))`: `parse_args` returns such a dict unchanged. -/
+theorem C15_fmtstrAtts (md : Nat) (t : Text) (a : Atts) (h : hasEscBracket t = false) :
+    fmtstrAtts md t a = .ok [⟨t, a⟩] := by
+  simp [fmtstrAtts, fromStr, h, fmtstrApply, C14_parse_own_atts, copyWithNewAtts, Atts.extend]
+
+/-- the padding never contains an escape sequence -/
+theorem spaces_clean (n : Nat) : hasEscBracket (spaces n) = false := by
+  induction n with
+  | zero => rfl
+  | succ m ih =>
+    cases m with
+    | zero => rfl
+    | succ k =>
+      have e : spaces (k + 1 + 1) = ' ' :: ' ' :: spaces k := by simp [spaces, List.replicate_succ]
+      have e' : spaces (k + 1) = ' ' :: spaces k := by simp [spaces, List.replicate_succ]
+      rw [e, hasEscBracket, ← e', ih]; decide
 
 private theorem le_remove_bg (sh a : Atts) (h : sh.le a) (hb : sh.bg.isSome = false) :
     sh.le (a.remove [.bg]) ∧ (a.remove [.bg]).le a := by
@@ -222,139 +268,172 @@ private theorem le_remove_bg (sh a : Atts) (h : sh.le a) (hb : sh.bg.isSome = fa
 
 private theorem le_self (a : Atts) : a.le a := by simp [Atts.le]
 
-/-- `f.ljust(width)`: the characters of `f` in order, each keeping at least the attributes shared by all
-    characters and showing only attributes it had, followed by `width - len` spaces that show only shared
-    attributes. -/
-theorem C15_ljust (f : FmtStr) (w : Int) (r : FmtStr) (h : ljust f w none = .ok r) :
-    ∃ (sh : Atts) (keep : Atts → Atts) (pad : Atts), sharedAtts f = .ok sh ∧
-      cells r = (cells f).map (fun p => (p.1, keep p.2)) ++
-        (spaces (w - (text f).length).toNat).map (fun ch => (ch, pad)) ∧
-      (∀ p ∈ cells f, sh.le (keep p.2) ∧ (keep p.2).le p.2) ∧ pad.le sh := by
+/-- What `ljust`/`rjust` do to an original character's dict, given the shared dict `sh`. -/
+def keepOf (sh a : Atts) : Atts := if sh.bg.isSome then a else a.remove [.bg]
+/-- The dict of the padding, given the shared dict `sh`. -/
+def padOf (sh : Atts) : Atts := if sh.bg.isSome then { bg := sh.bg } else sh
+
+/-- `f.ljust(width)`, exactly: the characters of `f` in order with `keepOf sh`, then `width - len` spaces with
+    `padOf sh`, where `sh = sharedAtts f`. -/
+theorem C15_ljust (md : Nat) (f : FmtStr) (w : Int) (r : FmtStr) (h : ljust md f w none = .ok r) :
+    ∃ sh, sharedAtts f = .ok sh ∧
+      cells r = (cells f).map (fun p => (p.1, keepOf sh p.2)) ++
+        (spaces (w - (text f).length).toNat).map (fun ch => (ch, padOf sh)) := by
   unfold ljust at h
-  simp only [] at h
+  simp only [C15_fmtstrAtts _ _ _ (spaces_clean _)] at h
   cases hs : sharedAtts f with
   | error e => rw [hs] at h; cases h
   | ok sh =>
     rw [hs] at h
     simp only [] at h
-    have hsh := C14_shared f sh hs
+    refine ⟨sh, rfl, ?_⟩
     by_cases hb : sh.bg.isSome = true
     · rw [if_pos hb] at h
-      injection h with h
-      refine ⟨sh, id, { bg := sh.bg }, rfl, ?_, fun p hp => ⟨hsh p hp, le_self _⟩, by simp [Atts.le]⟩
+      simp only [keepOf, padOf, hb, if_true]
       by_cases he : (spaces (w - (text f).length).toNat).isEmpty = true
-      · rw [if_pos he] at h
+      · rw [if_pos he] at h; injection h with h
         rw [← h, List.isEmpty_iff.mp he]; simp
-      · rw [if_neg he] at h
-        rw [← h]; simp [add, fmtstrAtts, Chunk.cells]
+      · rw [if_neg he] at h; injection h with h
+        rw [← h]; simp [add, Chunk.cells]
     · rw [if_neg hb] at h
-      injection h with h
-      have hb' : sh.bg.isSome = false := by simpa using hb
-      refine ⟨sh, fun a => a.remove [.bg], sh, rfl, ?_, fun p hp => le_remove_bg sh p.2 (hsh p hp) hb', le_self _⟩
+      simp only [keepOf, padOf, hb, Bool.false_eq_true, if_false]
       by_cases he : (spaces (w - (text f).length).toNat).isEmpty = true
-      · rw [if_pos he] at h
+      · rw [if_pos he] at h; injection h with h
         rw [← h, List.isEmpty_iff.mp he, C14_remove]; simp
-      · rw [if_neg he] at h
-        rw [← h]; simp [add, fmtstrAtts, Chunk.cells, C14_remove]
+      · rw [if_neg he] at h; injection h with h
+        rw [← h]; simp [add, Chunk.cells, C14_remove]
 
 /-- `f.rjust(width)`: the same with the padding in front. -/
-theorem C15_rjust (f : FmtStr) (w : Int) (r : FmtStr) (h : rjust f w none = .ok r) :
-    ∃ (sh : Atts) (keep : Atts → Atts) (pad : Atts), sharedAtts f = .ok sh ∧
-      cells r = (spaces (w - (text f).length).toNat).map (fun ch => (ch, pad)) ++
-        (cells f).map (fun p => (p.1, keep p.2)) ∧
-      (∀ p ∈ cells f, sh.le (keep p.2) ∧ (keep p.2).le p.2) ∧ pad.le sh := by
+theorem C15_rjust (md : Nat) (f : FmtStr) (w : Int) (r : FmtStr) (h : rjust md f w none = .ok r) :
+    ∃ sh, sharedAtts f = .ok sh ∧
+      cells r = (spaces (w - (text f).length).toNat).map (fun ch => (ch, padOf sh)) ++
+        (cells f).map (fun p => (p.1, keepOf sh p.2)) := by
   unfold rjust at h
-  simp only [] at h
+  simp only [C15_fmtstrAtts _ _ _ (spaces_clean _)] at h
   cases hs : sharedAtts f with
   | error e => rw [hs] at h; cases h
   | ok sh =>
     rw [hs] at h
     simp only [] at h
-    have hsh := C14_shared f sh hs
+    refine ⟨sh, rfl, ?_⟩
     by_cases hb : sh.bg.isSome = true
     · rw [if_pos hb] at h
-      injection h with h
-      refine ⟨sh, id, { bg := sh.bg }, rfl, ?_, fun p hp => ⟨hsh p hp, le_self _⟩, by simp [Atts.le]⟩
+      simp only [keepOf, padOf, hb, if_true]
       by_cases he : (spaces (w - (text f).length).toNat).isEmpty = true
-      · rw [if_pos he] at h
+      · rw [if_pos he] at h; injection h with h
         rw [← h, List.isEmpty_iff.mp he]; simp
-      · rw [if_neg he] at h
-        rw [← h]; simp [add, fmtstrAtts, Chunk.cells]
+      · rw [if_neg he] at h; injection h with h
+        rw [← h]; simp [add, Chunk.cells]
     · rw [if_neg hb] at h
-      injection h with h
-      have hb' : sh.bg.isSome = false := by simpa using hb
-      refine ⟨sh, fun a => a.remove [.bg], sh, rfl, ?_, fun p hp => le_remove_bg sh p.2 (hsh p hp) hb', le_self _⟩
+      simp only [keepOf, padOf, hb, Bool.false_eq_true, if_false]
       by_cases he : (spaces (w - (text f).length).toNat).isEmpty = true
-      · rw [if_pos he] at h
+      · rw [if_pos he] at h; injection h with h
         rw [← h, List.isEmpty_iff.mp he, C14_remove]; simp
-      · rw [if_neg he] at h
-        rw [← h]; simp [add, fmtstrAtts, Chunk.cells, C14_remove]
+      · rw [if_neg he] at h; injection h with h
+        rw [← h]; simp [add, Chunk.cells, C14_remove]
+
+/-- How the exact behaviour relates to the statement's wording: every original character keeps at least the
+    shared attributes and shows only attributes it had; the padding shows only shared attributes - ALL of them
+    exactly when no bg is shared; with a shared bg the padding carries that bg and nothing else. -/
+theorem C15_just_bounds (f : FmtStr) (sh : Atts) (hs : sharedAtts f = .ok sh) :
+    (∀ p ∈ cells f, sh.le (keepOf sh p.2) ∧ (keepOf sh p.2).le p.2) ∧ (padOf sh).le sh ∧
+    (sh.bg.isSome = false → padOf sh = sh) ∧ (sh.bg.isSome = true → padOf sh = { bg := sh.bg }) := by
+  have hsh := C14_shared f sh hs
+  refine ⟨fun p hp => ?_, ?_, fun hb => by simp [padOf, hb], fun hb => by simp [padOf, hb]⟩
+  · by_cases hb : sh.bg.isSome = true
+    · simp only [keepOf, hb, if_true]; exact ⟨hsh p hp, le_self _⟩
+    · have hb' : sh.bg.isSome = false := by simpa using hb
+      simp only [keepOf, hb', Bool.false_eq_true, if_false]
+      exact le_remove_bg sh p.2 (hsh p hp) hb'
+  · by_cases hb : sh.bg.isSome = true
+    · simp only [padOf, hb, if_true]; simp [Atts.le]
+    · simp only [padOf, hb, if_false]; exact le_self _
 
 /-- The text of `ljust` / `rjust` without fill character is `str.ljust` / `str.rjust` of the text. -/
-theorem C15_just_text (f : FmtStr) (w : Int) (r : FmtStr) :
-    (ljust f w none = .ok r → text r = pyLjust (text f) w ' ') ∧
-    (rjust f w none = .ok r → text r = pyRjust (text f) w ' ') := by
+theorem C15_just_text (md : Nat) (f : FmtStr) (w : Int) (r : FmtStr) :
+    (ljust md f w none = .ok r → text r = pyLjust (text f) w ' ') ∧
+    (rjust md f w none = .ok r → text r = pyRjust (text f) w ' ') := by
   constructor
   · intro h
-    obtain ⟨sh, keep, pad, _, hc, _⟩ := C15_ljust f w r h
+    obtain ⟨sh, _, hc⟩ := C15_ljust md f w r h
     rw [text_eq_cells, hc, text_eq_cells]
     simp [pyLjust, spaces, List.map_map, Function.comp_def]
   · intro h
-    obtain ⟨sh, keep, pad, _, hc, _⟩ := C15_rjust f w r h
+    obtain ⟨sh, _, hc⟩ := C15_rjust md f w r h
     rw [text_eq_cells, hc, text_eq_cells]
     simp [pyRjust, spaces, List.map_map, Function.comp_def]
 
-/-- With a fill character: the padded text, every character carrying exactly the shared attributes, each of
-    which every character of `f` has. -/
-theorem C15_just_fill (f : FmtStr) (w : Int) (c : Char) (r : FmtStr) :
-    (ljust f w (some c) = .ok r → ∃ sh, sharedAtts f = .ok sh ∧
+/-- With a fill character (padded text free of `ESC [`): the padded text, every character carrying exactly the
+    shared attributes, each of which every character of `f` has. -/
+theorem C15_just_fill (md : Nat) (f : FmtStr) (w : Int) (c : Char) (r : FmtStr) :
+    (hasEscBracket (pyLjust (text f) w c) = false → ljust md f w (some c) = .ok r → ∃ sh, sharedAtts f = .ok sh ∧
         cells r = (pyLjust (text f) w c).map (fun ch => (ch, sh)) ∧ ∀ p ∈ cells f, sh.le p.2) ∧
-    (rjust f w (some c) = .ok r → ∃ sh, sharedAtts f = .ok sh ∧
+    (hasEscBracket (pyRjust (text f) w c) = false → rjust md f w (some c) = .ok r → ∃ sh, sharedAtts f = .ok sh ∧
         cells r = (pyRjust (text f) w c).map (fun ch => (ch, sh)) ∧ ∀ p ∈ cells f, sh.le p.2) := by
-  constructor <;> intro h
+  constructor <;> intro hcl h
   · unfold ljust at h
     cases hs : sharedAtts f with
     | error e => rw [hs] at h; cases h
     | ok sh =>
-      rw [hs] at h; injection h with h
-      exact ⟨sh, rfl, by rw [← h]; simp [fmtstrAtts, Chunk.cells], C14_shared f sh hs⟩
+      rw [hs] at h; simp only [C15_fmtstrAtts _ _ _ hcl] at h; injection h with h
+      exact ⟨sh, rfl, by rw [← h]; simp [Chunk.cells], C14_shared f sh hs⟩
   · unfold rjust at h
     cases hs : sharedAtts f with
     | error e => rw [hs] at h; cases h
     | ok sh =>
-      rw [hs] at h; injection h with h
-      exact ⟨sh, rfl, by rw [← h]; simp [fmtstrAtts, Chunk.cells], C14_shared f sh hs⟩
+      rw [hs] at h; simp only [C15_fmtstrAtts _ _ _ hcl] at h; injection h with h
+      exact ⟨sh, rfl, by rw [← h]; simp [Chunk.cells], C14_shared f sh hs⟩
 
 /-! ### delegation to str -/
 
-private theorem mapM_const_ok (ts : List Text) (g : Text → FmtStr) :
-    ts.mapM (fun t => (Except.ok (g t) : Except PyErr FmtStr)) = .ok (ts.map g) := by
+private theorem mapM_clean_ok (md : Nat) (sh : Atts) (ts : List Text) (h : ∀ t ∈ ts, hasEscBracket t = false) :
+    ts.mapM (fun t => fmtstrAtts md t sh) = .ok (ts.map fun t => [⟨t, sh⟩]) := by
   induction ts with
   | nil => rfl
-  | cons t rest ih => simp [List.mapM_cons, ih, bind, Except.bind, pure, Except.pure]
+  | cons t rest ih =>
+    have := ih (fun t' ht => h t' (List.mem_cons_of_mem _ ht))
+    simp [List.mapM_cons, this, C15_fmtstrAtts md t sh (h t (List.mem_cons_self ..)), bind, Except.bind, pure, Except.pure]
 
-/-- `__getattr__` delegation for an uninterpreted str method `m`: exceptions and non-text answers pass
-    through unchanged; a text answer `t` becomes the FmtStr with text `t` whose every character carries exactly
-    `sharedAtts f` - and each entry of that is an entry of every character of `f`; a list of texts likewise,
-    element by element. -/
-theorem C15_delegate {β : Type} (f : FmtStr) (m : Text → Except PyErr (StrResult β)) :
-    (∀ e, m (text f) = .error e → delegate f m = .error e) ∧
-    (∀ b, m (text f) = .ok (.other b) → delegate f m = .ok (.other b)) ∧
-    (∀ t sh, m (text f) = .ok (.str t) → sharedAtts f = .ok sh →
-      delegate f m = .ok (.fmt [⟨t, sh⟩]) ∧ cells [⟨t, sh⟩] = t.map (fun ch => (ch, sh)) ∧
+/-- FULL STATEMENT of the delegation clause (text results carry exactly the shared formatting, for EVERY result
+    text). -/
+def C15_delegate_full_statement : Prop :=
+  ∀ (md : Nat) (f : FmtStr) (m : Text → Except PyErr (StrResult Unit)) (t : Text) (sh : Atts),
+    m (text f) = .ok (.str t) → sharedAtts f = .ok sh → delegate md f m = .ok (.fmt [⟨t, sh⟩])
+
+/-- `__getattr__` delegation for an uninterpreted str method `m`: exceptions, bytes and other non-text answers
+    pass through unchanged; a text answer `t` free of `ESC [` becomes the FmtStr with text `t` whose every character
+    carries exactly `sharedAtts f` - and each entry of that is an entry of every character of `f`; a list of texts
+    likewise, element by element.
+    PARTIAL w.r.t. `C15_delegate_full_statement` (open finding D27): a result text containing `ESC [` is re-parsed by
+    `fmtstr` (`C15_delegate_witness`); the hypothesis is the complement of that footprint. -/
+theorem C15_delegate_partial {β : Type} (md : Nat) (f : FmtStr) (m : Text → Except PyErr (StrResult β)) :
+    (∀ e, m (text f) = .error e → delegate md f m = .error e) ∧
+    (∀ b, m (text f) = .ok (.other b) → delegate md f m = .ok (.other b)) ∧
+    (∀ bs, m (text f) = .ok (.bytes bs) → delegate md f m = .ok (.bytes bs)) ∧
+    (∀ t sh, m (text f) = .ok (.str t) → hasEscBracket t = false → sharedAtts f = .ok sh →
+      delegate md f m = .ok (.fmt [⟨t, sh⟩]) ∧ cells [⟨t, sh⟩] = t.map (fun ch => (ch, sh)) ∧
       ∀ p ∈ cells f, sh.le p.2) ∧
-    (∀ ts sh, m (text f) = .ok (.list ts) → sharedAtts f = .ok sh →
-      delegate f m = .ok (.fmtList (ts.map fun t => [⟨t, sh⟩])) ∧ ∀ p ∈ cells f, sh.le p.2) := by
-  refine ⟨?_, ?_, ?_, ?_⟩
+    (∀ ts sh, m (text f) = .ok (.list ts) → (∀ t ∈ ts, hasEscBracket t = false) → sharedAtts f = .ok sh →
+      delegate md f m = .ok (.fmtList (ts.map fun t => [⟨t, sh⟩])) ∧ ∀ p ∈ cells f, sh.le p.2) := by
+  refine ⟨?_, ?_, ?_, ?_, ?_⟩
   · intro e h; simp [delegate, h]
   · intro b h; simp [delegate, h]
-  · intro t sh h hs
-    exact ⟨by simp [delegate, h, hs, fmtstrAtts], by simp [Chunk.cells], C14_shared f sh hs⟩
-  · intro ts sh h hs
+  · intro bs h; simp [delegate, h]
+  · intro t sh h hcl hs
+    exact ⟨by simp [delegate, h, hs, C15_fmtstrAtts md t sh hcl], by simp [Chunk.cells], C14_shared f sh hs⟩
+  · intro ts sh h hcl hs
     refine ⟨?_, C14_shared f sh hs⟩
     simp only [delegate, h, hs]
-    rw [mapM_const_ok ts (fun t => fmtstrAtts t sh)]
-    rfl
+    rw [mapM_clean_ok md sh ts hcl]
+
+/-- WITNESS for D27 (replayed on the real code by the harness): `fmtstr('a').replace('a', '\x1b[31mx\x1b[39m')` -
+    the str method returns a text with an escape sequence; the re-wrapped result is the ONE character `x`, red. -/
+theorem C15_delegate_witness :
+    delegate Generated.intMaxStrDigits [⟨['a'], {}⟩]
+        (fun _ => (.ok (.str [Curtsies.ESC, '[', '3', '1', 'm', 'x', Curtsies.ESC, '[', '3', '9', 'm']) :
+          Except PyErr (StrResult Unit)))
+      = .ok (.fmt [⟨['x'], { fg := some 1 }⟩]) := by
+  decide +kernel
 
 /-- `sh` is exactly the formatting shared by all characters of `f`: on every character, and containing every
     dict that is on every character (`C14_shared` + `C14_shared_complete`). -/
@@ -364,27 +443,29 @@ def ExactlyShared (f : FmtStr) (sh : Atts) : Prop :=
 /-- Sharpened delegation / fill-character statements for a string with at least one character: the formatting of
     the result is EXACTLY the formatting shared by all characters of the original (and the call cannot fail on
     `shared_atts`). -/
-theorem C15_delegate_exact {β : Type} (f : FmtStr) (hch : cells f ≠ [])
+theorem C15_delegate_exact {β : Type} (md : Nat) (f : FmtStr) (hch : cells f ≠ [])
     (m : Text → Except PyErr (StrResult β)) :
     ∃ sh, ExactlyShared f sh ∧
-      (∀ t, m (text f) = .ok (.str t) → delegate f m = .ok (.fmt [⟨t, sh⟩])) ∧
-      (∀ ts, m (text f) = .ok (.list ts) → delegate f m = .ok (.fmtList (ts.map fun t => [⟨t, sh⟩]))) := by
+      (∀ t, m (text f) = .ok (.str t) → hasEscBracket t = false → delegate md f m = .ok (.fmt [⟨t, sh⟩])) ∧
+      (∀ ts, m (text f) = .ok (.list ts) → (∀ t ∈ ts, hasEscBracket t = false) →
+        delegate md f m = .ok (.fmtList (ts.map fun t => [⟨t, sh⟩]))) := by
   obtain ⟨sh, hs, h1, h2⟩ := C14_shared_complete f hch
-  obtain ⟨_, _, d3, d4⟩ := C15_delegate f m
-  exact ⟨sh, ⟨h1, h2⟩, fun t ht => (d3 t sh ht hs).1, fun ts ht => (d4 ts sh ht hs).1⟩
+  obtain ⟨_, _, _, d3, d4⟩ := C15_delegate_partial md f m
+  exact ⟨sh, ⟨h1, h2⟩, fun t ht hc => (d3 t sh ht hc hs).1, fun ts ht hc => (d4 ts sh ht hc hs).1⟩
 
-theorem C15_just_fill_exact (f : FmtStr) (hch : cells f ≠ []) (w : Int) (c : Char) :
+theorem C15_just_fill_exact (md : Nat) (f : FmtStr) (hch : cells f ≠ []) (w : Int) (c : Char)
+    (hl : hasEscBracket (pyLjust (text f) w c) = false) (hr : hasEscBracket (pyRjust (text f) w c) = false) :
     ∃ sh, ExactlyShared f sh ∧
-      ljust f w (some c) = .ok [⟨pyLjust (text f) w c, sh⟩] ∧
-      rjust f w (some c) = .ok [⟨pyRjust (text f) w c, sh⟩] := by
+      ljust md f w (some c) = .ok [⟨pyLjust (text f) w c, sh⟩] ∧
+      rjust md f w (some c) = .ok [⟨pyRjust (text f) w c, sh⟩] := by
   obtain ⟨sh, hs, h1, h2⟩ := C14_shared_complete f hch
-  exact ⟨sh, ⟨h1, h2⟩, by simp [ljust, hs, fmtstrAtts], by simp [rjust, hs, fmtstrAtts]⟩
+  exact ⟨sh, ⟨h1, h2⟩, by simp [ljust, hs, C15_fmtstrAtts _ _ _ hl], by simp [rjust, hs, C15_fmtstrAtts _ _ _ hr]⟩
 
 /-- Non-vacuity: `on_blue(underline('ab')).ljust(4)` is padded with non-underlined blue; a red string with a
     plain tail loses nothing it shares; split and splitlines on a two-run string. -/
-example : ljust [⟨['a', 'b'], { bg := some 4, underline := some true }⟩] 4 none
+example : ljust 4300 [⟨['a', 'b'], { bg := some 4, underline := some true }⟩] 4 none
     = .ok [⟨['a', 'b'], { bg := some 4, underline := some true }⟩, ⟨[' ', ' '], { bg := some 4 }⟩] := by decide
-example : (splitSep [⟨['a', ','], { fg := some 1 }⟩, ⟨['b'], {}⟩] [',']).map cells
+example : (splitSpans [⟨['a', ','], { fg := some 1 }⟩, ⟨['b'], {}⟩] (findSpans [','] ['a', ',', 'b'])).map cells
     = [[('a', { fg := some 1 })], [('b', {})]] := by decide
 example : (splitlines (fun c => c = '\n') [⟨['a', '\n'], { fg := some 1 }⟩, ⟨['b'], {}⟩] true).map cells
     = [[('a', { fg := some 1 }), ('\n', { fg := some 1 })], [('b', {})]] := by decide
